@@ -47,7 +47,7 @@ ASSUMPTIONS = ['record = one SSH packet (asserted by the tap)',
 REQUIRED = ['tampers_applied', 'prefix_exact_checked', 'error_class_checked',
             'flip_cases', 'trunc_cases', 'reorder_cases', 'stalls_resolved',
             'rekey_cases', 'paused_receivers', 'late_readers',
-            'session_end_checked']
+            'session_end_checked', 'disconnect_on_wire_checked']
 BUDGET_S = {'quick': 300, 'thorough': 3400}
 CASE_TIMEOUT_S = 40
 
@@ -576,6 +576,28 @@ def run_case(case):
                                           f'detected got the intact bytes '
                                           f'and then a clean EOF; '
                                           f'{tm.applied}'})
+
+                # ... and the receiver tells its peer why: a DISCONNECT goes
+                # on the wire (seen by the tap as written, whatever becomes
+                # of it in transit).  Judged only where the receiver holds a
+                # complete altered record and nothing else ends the session.
+                lt0 = t.links.get(0)
+                other = S2C if d == C2S else C2S
+                if op == 'flip' and case['op'][1] in ('body', 'pad', 'tag0',
+                                                      'tagN') and \
+                        not stalled and not clean_end0 and \
+                        lt0 is not None and not lt0.dead[other] and \
+                        not ('cbc' in case['enc'] and
+                             tm.applied.get('offset', 0) < bs):
+                    mon['disconnect_on_wire_checked'] += 1
+                    if not any(dd == other and tt == R.MSG_DISCONNECT
+                               for _, dd, _, tt, _, _ in lt0.events):
+                        viol.append({
+                            'mechanism': 'no_disconnect_sent_after_tamper',
+                            'detail': f'the receiver closed without putting '
+                                      f'a DISCONNECT on the wire; the sender '
+                                      f'of the altered stream only sees the '
+                                      f'transport go away; {tm.applied}'})
 
                 # the receiver's owner must be told about an error
                 mon['error_class_checked'] += 1
